@@ -2150,6 +2150,13 @@ impl<'a, E: quiver_core::effects::Effect> Compiler<'a, E> {
                 if let Some(d) = &mut dispatch {
                     d.valid = false;
                 }
+                // The condition's code still runs and may have stored bindings before it
+                // yielded nil (`1 =x [] => ..`): drop them, the code that follows is compiled
+                // against the locals as they were at the start of the branch.
+                if self.local_count > param_local + 1 {
+                    self.codegen
+                        .add_instruction(Instruction::Reset(param_local + 1));
+                }
                 continue;
             }
 
